@@ -164,6 +164,9 @@ pub struct Ctx {
     pub exhaustive: Vec<String>,
     pub required_labels: Vec<String>,
     pub journal: Option<String>,
+    journal_file: Option<std::fs::File>,
+    /// number of failures whose signature was already recorded (not shrunk again)
+    pub repeat_failures: u64,
     /// configuration name mixed into the proptest seed (C16 replaces it by a constant so that
     /// every configuration generates the same corpus)
     pub seed_config: String,
@@ -251,6 +254,8 @@ impl Ctx {
             exhaustive: Vec::new(),
             required_labels: Vec::new(),
             journal: None,
+            journal_file: None,
+            repeat_failures: 0,
             seed_config: config.to_string(),
             out_path: None,
             last_used: 0,
@@ -321,16 +326,23 @@ impl Ctx {
         }
     }
 
-    fn write_journal(&self, gen: &str, words: &[u32]) {
-        if let Some(p) = &self.journal {
-            if let Ok(mut f) = std::fs::File::create(p) {
-                let _ = write!(
-                    f,
-                    "{}",
-                    json!({"property": self.prop, "config": self.config, "gen": gen, "words": words,
-                           "sig": "crash", "msg": "process died (abort/signal) while executing this case"})
-                );
-            }
+    fn write_journal(&mut self, gen: &str, words: &[u32]) {
+        use std::io::{Seek, SeekFrom};
+        if self.journal.is_none() {
+            return;
+        }
+        if self.journal_file.is_none() {
+            self.journal_file = std::fs::File::create(self.journal.as_ref().unwrap()).ok();
+        }
+        let text = json!({"property": self.prop, "config": self.config, "gen": gen, "words": words,
+                          "sig": "crash", "msg": "process died (abort/signal) while executing this case"})
+        .to_string();
+        if let Some(f) = self.journal_file.as_mut() {
+            // overwrite in place (one write syscall per case); pad so that a shorter record
+            // fully replaces a longer one, then trim
+            let _ = f.seek(SeekFrom::Start(0));
+            let _ = f.write_all(text.as_bytes());
+            let _ = f.set_len(text.len() as u64);
         }
     }
 
@@ -437,6 +449,15 @@ impl Ctx {
                 let mut src = Src::new(&words);
                 catch_unwind(AssertUnwindSafe(|| (gen.f)(&mut src, &mut obs)))
             };
+            // a failure whose signature is already recorded is not shrunk again (fuzzers and
+            // property libraries stop at the first failure; this lets the search continue behind it)
+            let r = match r {
+                Ok(Err(f)) if *counting && ctx.violations.iter().any(|v| v.fail.sig == f.sig) => {
+                    ctx.repeat_failures += 1;
+                    Ok(Ok(()))
+                }
+                other => other,
+            };
             let failed = !matches!(r, Ok(Ok(())));
             if *counting {
                 ctx.merge(gen.name, &words, obs);
@@ -518,6 +539,7 @@ impl Ctx {
             "hist": self.hist,
             "samples": self.samples,
             "excluded_known": self.excluded_known,
+            "repeat_failures_not_reshrunk": self.repeat_failures,
             "notes": self.notes,
             "exhaustive": self.exhaustive,
             "missing_required_classes": missing,
